@@ -3044,6 +3044,9 @@ func parseOptions(index *int, opts *Options, allArgs []string) error {
 				if opts.Multi, err = atoi(value); err != nil {
 					return err
 				}
+				if opts.Multi < 0 {
+					return errors.New("not a non-negative integer: " + value)
+				}
 			} else {
 				return errors.New("unknown option: " + arg)
 			}
